@@ -98,39 +98,78 @@ Section Display.
   Lemma ok_not_num m e : ok m e = true -> not_num e.
   Proof. destruct e; cbn; try discriminate; auto. Qed.
 
-  Lemma display_bin o l r p : not_num l -> not_num r ->
-    display fmt (EBin o l r p) =
-    wrap p (wrapc (is_caret o && is_pre l) (display fmt l) ++ [32%N] ++ oper_str o ++ [32%N] ++ display fmt r).
+  Definition lhs_text (o : oper) (l : tree) : str :=
+    match l with
+    | EPre _ _ => if (2 <? binding_pow o)%nat then [40%N] ++ render fmt l 0 ++ [41%N] else render fmt l (binding_pow o)
+    | _ => render fmt l (binding_pow o)
+    end.
+
+  Definition bin_text (o : oper) (l r : tree) : str :=
+    lhs_text o l ++ [32%N] ++ oper_str o ++ [32%N] ++ render fmt r (binding_pow o + 1).
+
+  Lemma render_bin o l r p k : not_num l -> not_num r ->
+    render fmt (EBin o l r p) k =
+    if p || (binding_pow o <? k)%nat then [40%N] ++ bin_text o l r ++ [41%N] else bin_text o l r.
   Proof.
-    intros Hl Hr. cbn [display].
+    intros Hl Hr. cbn [render]. unfold bin_text, lhs_text.
     destruct o; destruct l as [x|v|c|f i|o' s|o' s|o' l1 l2 p']; try contradiction;
       destruct r as [y|w|d|g j|o2 t|o2 t|o2 r1 r2 p2]; try contradiction; reflexivity.
   Qed.
 
-  Lemma display_post o v : display fmt (EPost o v) = wrapc (is_pre v) (display fmt v) ++ oper_str o.
-  Proof. destruct v; cbn [display is_pre wrapc]; try reflexivity. rewrite <- !app_assoc. reflexivity. Qed.
+  Lemma render_post o v k :
+    render fmt (EPost o v) k =
+    match v with
+    | EPre _ _ | EBin _ _ _ false => [40%N] ++ render fmt v 0 ++ [41%N] ++ oper_str o
+    | _ => render fmt v 0 ++ oper_str o
+    end.
+  Proof. reflexivity. Qed.
 
-  Lemma filter_display : forall e m, ok m e = true -> filter nsp (display fmt e) = chars e.
+  (* in the fragment the text does not depend on the context: every operand is self-delimiting *)
+  Lemma filter_render : forall e m k, ok m e = true -> filter nsp (render fmt e k) = chars e.
   Proof.
-    induction e as [x|v|c|f i IH|o s IH|o s IH|o l IHl r IHr p]; intros m H; try discriminate.
+    induction e as [x|v|c|f i IH|o s IH|o s IH|o l IHl r IHr p]; intros m k H; try discriminate.
     - apply filter_var. exact H.
     - apply filter_cnst.
-    - cbn [ok] in H. destruct o; try discriminate. destruct m; try discriminate;
-        cbn [display chars]; rewrite filter_app, (IH _ H); reflexivity.
     - cbn [ok] in H. destruct o; try discriminate.
-      rewrite display_post. cbn [chars]. rewrite filter_app, filter_wrapc, (IH _ H). reflexivity.
+      assert (Hs : ok MSigned s = true) by (destruct m; try discriminate; exact H).
+      cbn [render chars]. rewrite filter_app, (IH _ _ Hs). reflexivity.
+    - cbn [ok] in H. destruct o; try discriminate.
+      rewrite render_post. cbn [chars].
+      destruct s as [y|w|d|g j|o2 t|o2 t|o2 r1 r2 p2]; try discriminate; cbn [is_pre wrapc];
+        try (rewrite filter_app, (IH _ _ H); reflexivity).
+      + rewrite !filter_app, (IH _ _ H). cbn. rewrite <- !app_assoc. reflexivity.
+      + destruct p2; [|discriminate]. rewrite filter_app, (IH _ _ H). reflexivity.
     - cbn [ok] in H. destruct p; [|discriminate].
       apply andb_prop in H as [H Hr]. apply andb_prop in H as [Ho Hl].
-      rewrite (display_bin _ _ _ _ (ok_not_num _ _ Hl) (ok_not_num _ _ Hr)). cbn [wrap chars wrapc].
-      rewrite !filter_app, filter_wrapc, (IHl _ Hl), (IHr _ Hr), filter_oper. reflexivity.
+      rewrite (render_bin _ _ _ _ _ (ok_not_num _ _ Hl) (ok_not_num _ _ Hr)). cbn [orb chars wrapc]. cbv iota.
+      unfold bin_text.
+      rewrite !filter_app, (IHr _ _ Hr), filter_oper. cbn [filter nsp c_space N.eqb Pos.eqb negb app].
+      f_equal. f_equal. unfold lhs_text.
+      destruct l as [y|w|d|g j|o2 t|o2 t|o2 r1 r2 p2]; try discriminate;
+        try (rewrite andb_false_r; cbn [wrapc]; rewrite (IHl _ _ Hl); reflexivity).
+      destruct o; cbn in Hl, Ho; try discriminate; try (destruct o2; discriminate).
+      cbn [binding_pow]. change (2 <? 5)%nat with true. cbv iota. cbn [is_caret is_pre andb wrapc].
+      rewrite !filter_app, (IHl MParen 0 Hl). reflexivity.
   Qed.
+
+  Lemma filter_display : forall e m, ok m e = true -> filter nsp (display fmt e) = chars e.
+  Proof. intros e m H. apply (filter_render e m 0 H). Qed.
 
   Lemma filter_display_top o l r :
     ok (if is_caret o then MParen else MOperand) l = true -> ok MSigned r = true ->
     filter nsp (display fmt (EBin o l r false)) = chars (EBin o l r false).
   Proof.
-    intros Hl Hr. rewrite (display_bin _ _ _ _ (ok_not_num _ _ Hl) (ok_not_num _ _ Hr)). cbn [wrap chars wrapc].
-    rewrite !filter_app, filter_wrapc, (filter_display _ _ Hl), (filter_display _ _ Hr), filter_oper. reflexivity.
+    intros Hl Hr. unfold display.
+    rewrite (render_bin _ _ _ _ _ (ok_not_num _ _ Hl) (ok_not_num _ _ Hr)).
+    replace (false || (binding_pow o <? 0)%nat) with false by (destruct (binding_pow o); reflexivity).
+    cbn [chars wrapc]. unfold bin_text.
+    rewrite !filter_app, (filter_render _ _ _ Hr), filter_oper. cbn [filter nsp c_space N.eqb Pos.eqb negb app].
+    f_equal. unfold lhs_text.
+    destruct l as [y|w|d|g j|o2 t|o2 t|o2 r1 r2 p2]; try discriminate;
+      try (rewrite andb_false_r; cbn [wrapc]; rewrite (filter_render _ _ _ Hl); reflexivity).
+    destruct o; cbn in Hl; try discriminate; try (destruct o2; discriminate).
+    cbn [binding_pow]. change (2 <? 5)%nat with true. cbv iota. cbn [is_caret is_pre andb wrapc].
+    rewrite !filter_app, (filter_render (EPre o2 t) MParen 0 Hl). reflexivity.
   Qed.
 
   (* ---- the lexer on such a text ------------------------------------------------------------------ *)
